@@ -20,6 +20,7 @@ type GenCfg struct {
 	BigRegexp         bool // allow regexps with negated classes / dots (large rune tables)
 	CustomStmts       bool // Custom bodies may skip, signal, register cleanups, probe contexts
 	SmallInts         bool // leaf integers from small ranges (values that shrink visibly)
+	CustomNonFatal    bool // Custom bodies may signal non-fatally (verdict-only checks)
 	CleanupBeforeSkip bool // Custom bodies register a (non-signalling) cleanup before the part that may skip (C10)
 }
 
@@ -509,16 +510,23 @@ func genCustomSpec(dt *drv.T, cfg GenCfg) *GenSpec {
 			s.Body = append(s.Body, &Stmt{Op: "if", Cond: genCond(dt), Body: []*Stmt{{Op: "skip", Kind: pick(dt, "skipkind", skipKinds...)}}})
 		}
 	}
+	// a value produced by the function can still be rejected by an enclosing Filter / distinct collection, and the
+	// attempt is then discarded: only signals that end the test case on the spot are generated here, unless the
+	// check looks at the verdict only (C02)
+	ckinds := hardSigKinds
+	if cfg.CustomNonFatal {
+		ckinds = allSigKinds
+	}
 	if cfg.CustomStmts {
 		n := drv.IntRange(0, 2).Draw(dt, "ncstmt")
 		for i := 0; i < n; i++ {
 			switch pick(dt, "cstmt", "cleanup", "ctx", "sigif") {
 			case "cleanup":
-				s.Body = append(s.Body, genCleanup(dt, 1))
+				s.Body = append(s.Body, genCleanupK(dt, 1, ckinds))
 			case "ctx":
 				s.Body = append(s.Body, &Stmt{Op: "ctx"})
 			case "sigif":
-				s.Body = append(s.Body, &Stmt{Op: "if", Cond: genCond(dt), Body: []*Stmt{genSig(dt, allSigKinds)}})
+				s.Body = append(s.Body, &Stmt{Op: "if", Cond: genCond(dt), Body: []*Stmt{genSig(dt, ckinds)}})
 			}
 		}
 	}
@@ -553,7 +561,11 @@ func genSig(dt *drv.T, kinds []string) *Stmt {
 	return &Stmt{Op: "sig", Kind: pick(dt, "sigkind", kinds...), Site: drv.IntRange(0, 7).Draw(dt, "site")}
 }
 
-func genCleanup(dt *drv.T, depth int) *Stmt {
+func genCleanup(dt *drv.T, depth int) *Stmt { return genCleanupK(dt, depth, allSigKinds) }
+
+var hardSigKinds = append(append([]string{}, fatalKinds...), panicKinds...)
+
+func genCleanupK(dt *drv.T, depth int, kinds []string) *Stmt {
 	st := &Stmt{Op: "cleanup"}
 	n := drv.IntRange(0, 2).Draw(dt, "ncl")
 	for i := 0; i < n; i++ {
@@ -564,11 +576,11 @@ func genCleanup(dt *drv.T, depth int) *Stmt {
 			st.Body = append(st.Body, &Stmt{Op: "log", N: drv.IntRange(0, 20).Draw(dt, "logn")})
 		case "sig":
 			if chance(dt, "clsig", 30) {
-				st.Body = append(st.Body, genSig(dt, allSigKinds))
+				st.Body = append(st.Body, genSig(dt, kinds))
 			}
 		case "nested":
 			if depth > 0 {
-				st.Body = append(st.Body, genCleanup(dt, depth-1))
+				st.Body = append(st.Body, genCleanupK(dt, depth-1, kinds))
 			}
 		}
 	}
